@@ -93,6 +93,10 @@ static Token *peek_token(Stage1Parser *p, int offset) {
     return &p->tokens[p->count - 1];
 }
 
+#ifdef NANOLANG_VERIF
+static unsigned long g_verif_same_pos = 0, g_verif_same_pos_max = 0; static int g_verif_last_pos = -1;
+static void verif_report_max(void) { if (getenv("NLVERIF_PARSER_STATS")) fprintf(stderr, "VERIF-PARSER max_same_pos_matches=%lu\n", g_verif_same_pos_max); }
+#endif
 static void advance(Stage1Parser *p) {
     if (p->pos < p->count - 1) {
         p->pos++;
@@ -100,6 +104,12 @@ static void advance(Stage1Parser *p) {
 }
 
 static bool match(Stage1Parser *p, TokenType type) {
+#ifdef NANOLANG_VERIF
+    { static int reg = 0; if (!reg) { reg = 1; atexit(verif_report_max); }
+      if (p && p->pos == g_verif_last_pos) { if (++g_verif_same_pos > g_verif_same_pos_max) g_verif_same_pos_max = g_verif_same_pos;
+          if (g_verif_same_pos >= 5000000UL) { fprintf(stderr, "VERIF: parser made no progress at token %d\n", p->pos); _exit(98); } }
+      else if (p) { g_verif_last_pos = p->pos; g_verif_same_pos = 0; } }
+#endif
     Token *tok = current_token(p);
     if (!tok) {
         return false;
